@@ -21,7 +21,7 @@ PROP = "C15"
 
 
 def plan(tier, seed):
-    k = 10 if tier == "quick" else 400
+    k = 24 if tier == "quick" else 400
     shards = []
     for kind in ("soup", "hostile_moderate", "hostile_extreme", "validator", "convert_soup"):
         shards += [{"kind": kind, "seed": seed, "shard": i, "n": 300} for i in range(k)]
